@@ -460,7 +460,9 @@ def rand_trans(rng, dated=None, sd=None):
     tf_sd = None
     if sd is True or (sd is None and rng.random() < 0.5):
         tf_sd = rand_sd(rng, d != 0)
-    rot = lambda: round(rng.uniform(-59.9, 59.9), rng.choice([2, 4, 7])) if rng.random() < 0.8 else rng.uniform(-59.9, 59.9)
+    tiny = rng.random() < 0.12   # sets with rotations of micro-arc-second size and below (plate-motion-like sets near their epoch)
+    rot = lambda: (rng.choice([-1, 1]) * 10 ** rng.uniform(-10, -3)) if tiny else (
+        round(rng.uniform(-59.9, 59.9), rng.choice([2, 4, 7])) if rng.random() < 0.8 else rng.uniform(-59.9, 59.9))
     vals = [rng.uniform(-1000, 1000), rng.uniform(-1000, 1000), rng.uniform(-1000, 1000), rng.uniform(-100, 100),
             rot(), rot(), rot(), rate(0.01), rate(0.01), rate(0.01), rate(0.001), rate(0.01), rate(0.01), rate(0.01)]
     if rng.random() < 0.25:
